@@ -45,11 +45,19 @@ func (f *Func) ReachUnder(d Decide) map[*flow.Vertex]bool {
 
 // ReachUnderFrom is ReachUnder from an arbitrary start vertex.
 func (f *Func) ReachUnderFrom(start *flow.Vertex, d Decide) map[*flow.Vertex]bool {
+	return f.ReachUnderStop(start, d, nil)
+}
+
+// ReachUnderStop is ReachUnderFrom that does not expand the vertices of stop.
+func (f *Func) ReachUnderStop(start *flow.Vertex, d Decide, stop map[*flow.Vertex]bool) map[*flow.Vertex]bool {
 	seen := map[*flow.Vertex]bool{start: true}
 	work := []*flow.Vertex{start}
 	for len(work) > 0 {
 		v := work[len(work)-1]
 		work = work[:len(work)-1]
+		if stop[v] && v != start {
+			continue
+		}
 		val, known := false, false
 		if v.Kind == flow.KCond || v.Kind == flow.KCase {
 			val, known = d(f, v)
